@@ -17,10 +17,14 @@ LEAVES = {
     "uuid": {"type": "string", "format": "uuid"},
     "conststr": {"const": "fixed"},
     "constint": {"const": 7},
+    "const0": {"const": 0}, "constempty": {"const": ""}, "constfalse": {"const": False},      # FALSY constants are constants too
     "enumstr": {"type": "string", "enum": ["a", "b c", "D", ""]},          # the empty string and 0 are FALSY members
     "enumint": {"type": "integer", "enum": [1, 2, -3, 0]},
 }
 NULL = {"type": "null"}
+# what each leaf schema must be parsed as (kind tag of lib.absprop) - the DOCUMENT is the reference, not the parse
+EXPECTED_LEAF_KIND = {"any": "any", "bool": "bool", "int": "int", "float": "float", "str": "str", "date": "date", "datetime": "datetime", "uuid": "uuid",
+                      "conststr": "const", "constint": "const", "const0": "const", "constempty": "const", "constfalse": "const", "enumstr": "enum", "enumint": "enum"}
 
 
 def obj(props, required=(), addl="absent", **kw):
